@@ -45,7 +45,7 @@ def lumped_index (spec):
     n   = 0
     for kind in LUMPED_ORDER:
         for i, l in enumerate (spec.get ('loads') or []):
-            if l ['k'] == kind:
+            if l ['k'] == kind and 'at' not in l:
                 n += 1
                 idx [i] = n
     return idx
@@ -100,7 +100,7 @@ def to_argv (spec, with_sources = True):
     lidx = lumped_index (spec)
     for kind in LUMPED_ORDER:
         for i, l in enumerate (spec.get ('loads') or []):
-            if l ['k'] != kind:
+            if l ['k'] != kind or 'at' in l:
                 continue
             if kind == 'z':
                 a += ['--load=' + cplx (*l ['z'])]
@@ -112,7 +112,7 @@ def to_argv (spec, with_sources = True):
                 a += ['--laplace-load-a=' + ','.join (fl (x) for x in l ['a'])]
                 a += ['--laplace-load-b=' + ','.join (fl (x) for x in l ['b'])]
     for i, l in enumerate (spec.get ('loads') or []):
-        if l ['k'] in LUMPED_ORDER:
+        if l ['k'] in LUMPED_ORDER and 'at' not in l:
             for att in l ['att']:
                 a += ['--attach-load', ','.join ([str (lidx [i])] + [str (x) for x in att])]
     for l in spec.get ('loads') or []:
@@ -158,6 +158,12 @@ def build (spec):
             idx, sgn = locate (m, s ['at'], s.get ('dir'))
             v = complex (*s ['v']) * sgn
             common.guarded (lambda: m.register_source (MM.Excitation (v), idx), 'register_source')
+    # lumped impedance loads given by location (registered through the API)
+    for l in spec.get ('loads') or []:
+        if 'at' in l:
+            idx, sgn = locate (m, l ['at'])
+            ld = MM.Impedance_Load (complex (*l ['z']))
+            common.guarded (lambda: m.register_load (ld, idx), 'register_load')
     return m
 # end def build
 
